@@ -4,9 +4,8 @@ CONSTANTS
   Denote <- DenoteMC
   Limits <- MCLimits
   HBMode = "on"
-  Table = "GSUB"
-  MaxL = 2
-  TwoSubs = TRUE
+  Table = "GPOS"
+  Shapes = {"2x2", "3x1"}
 INIT MInit
 NEXT RNext
 CONSTRAINTS Bounded NoStuckLig GenEmit Stat
